@@ -125,5 +125,8 @@ structure Inv (s : State) : Prop where
   ranGo   : ∀ k, ((s.loc k).hasRun = true ∨ s.loc k = .detached) → s.go = true
   remLoc  : ∀ k, s.removed k = true ↔ s.loc k = .removed
   errRaises : ∀ k t, s.loc k = .erring t → s.raises k = true
+  g9ne    : ∀ t js ws, s.pc t = .g9 js ws → ws ≠ []
+  g10ne   : ∀ t js, s.pc t = .g10 js → js ≠ []
+  locBorn : ∀ k, k < s.nextK → s.loc k ≠ .unborn
 
 end MoThreads.SignalCore
